@@ -78,7 +78,7 @@ deriving Repr, DecidableEq
 
 /-- what one wake-up of a worker does, in order -/
 inductive PollAct
-  | clearStartDriving | drive | shipSamples | sendCancelled | sendFailure | clearFuture | rearm
+  | clearStartDriving | drive | shipSamples | sendCancelled | sendFailure | clearFuture | rearm | sendReady
 deriving Repr, DecidableEq
 
 def poll (startDriving cancel : Bool) (f : Fut) : List PollAct :=
@@ -93,7 +93,16 @@ def poll (startDriving cancel : Bool) (f : Fut) : List PollAct :=
 
 /-- the four ways a wake-up can end -/
 def PollAct.isOutcome : PollAct → Bool
-  | .drive | .sendCancelled | .sendFailure | .rearm => true
+  | .drive | .sendCancelled | .sendFailure | .rearm | .sendReady => true
   | _ => false
+
+/-- one wake-up of a task executor (`TaskExecutionActor.receiveMsg_WakeupMessage`, track preparation): report the failure,
+    or ask for the next task, or keep polling -/
+def pollTaskExecutor (f : Fut) : List PollAct :=
+  match f with
+  | .doneExc => [.sendFailure]
+  | .doneOk => [.clearFuture, .sendReady]
+  | .none => [.rearm]
+  | .running => [.rearm]
 
 end RaceCtl
